@@ -600,12 +600,17 @@ class Fn:
             e = E('local', info={'l': l, 'ty': self.locals[l] if l < len(self.locals) else '?'})
             return self._apply_proj(e, proj, depth, stack)
         outs = [self._apply_proj(e, rest, depth, stack) for e, rest in cands]
+        # `(x as Some).0` where one definition of x is the literal `None`: that definition cannot be the one read
+        live = [o for o in outs if o.kind != 'never']
+        outs = live or outs[:1]
         if len(outs) == 1:
             return outs[0]
         return E('phi', args=outs, info={'l': l})
 
     def _apply_proj(self, e, proj, depth, stack):
         for x in proj:
+            if e.kind == 'never':
+                return e
             k = x['k']
             if k == 'field' and e.kind == 'binop' and e.op.endswith('WithOverflow'):
                 if x['i'] == 0:
@@ -635,7 +640,14 @@ class Fn:
                 # locals being resolved for the base place
                 e = E('proj', a=e, b=self.local_expr(x['l'], [], depth + 8, frozenset()), op='index')
             elif k == 'downcast':
-                e = E('proj', a=e, op='downcast', info={'n': x.get('n', ''), 'v': x.get('v')})
+                if e.kind == 'never':
+                    pass
+                elif e.kind == 'agg' and e.info.get('ak') == 'adt' and e.info.get('variant') and x.get('n'):
+                    # the variant of an enum literal is known: the same one is read through, another one is dead
+                    if e.info['variant'] != x['n']:
+                        e = E('never')
+                else:
+                    e = E('proj', a=e, op='downcast', info={'n': x.get('n', ''), 'v': x.get('v')})
             else:
                 e = E('proj', a=e, op=k, info=dict(x))
         return e
@@ -1164,11 +1176,16 @@ class Program:
             self.renamed_fields = normalize.rename_private_fields(crates, table)
             self.inlined = normalize.inline_new_helpers(crates, table)
             self.desugared = normalize.desugar_option_combinators(crates, table)
+            for _round in range(3):     # (chains: res.map(..).map_err(..))
+                more = normalize.desugar_result_combinators(crates, table)
+                self.desugared += more
+                if not more:
+                    break
             self.inlined += [(c, [f]) for c, f in normalize.inline_local_closure_calls(crates, table)]
             for d in crates:
                 for fd in d['fns']:
-                    if fd.get('desugared') or fd.get('inlined'):
-                        normalize.thread_const_bool_gotos(fd)
+                    # (everywhere: `let t = a || b; if !t` in a function nothing was spliced into is the same shape)
+                    normalize.thread_const_bool_gotos(fd)
                     if fd.get('inlined'):
                         normalize.thread_bool_returns(fd)
         for d in crates:
